@@ -129,7 +129,9 @@ func runC02(c *report.Ctx) {
 	rulePayloadBeforeFeeLoop(c)
 	ruleReservationCacheOwnership(c)
 	ruleEveryInputSized(c)
-	ruleImportAppliesSpends(c) // an imported wallet must not be left holding coins the chain already spent
+	ruleImportAppliesSpends(c)          // an imported wallet must not be left holding coins the chain already spent
+	ruleUnminedRecordTypestate(c)       // a dropped pending transaction must release every coin it held, or funds that suffice are refused
+	ruleMinedCreditShortcutBlockOnly(c) // a pending child of a pending wallet transaction must mark the change it spends
 
 	// ---- reservation ---------------------------------------------------------------
 	c.Rule("reservation", "every success return of a Create* method passes MarkUsedUTXO, so a second draft cannot select the same coins", 4)
